@@ -7,35 +7,59 @@ import random
 import gen as G
 from implutil import ints, make_context, exc_name
 
-RULE = ('case = (boolean table with named objects/attributes, algorithm in {default=Lindig, CbO}); the REAL lattice\'s '
-        'get_concept_new_extent_i/_intent_i, the name versions, ancestors(i) of every concept and the default diagram label '
-        'of every node are collected; the Lean checker holdsC04 rebuilds the table from those labels and ancestor sets and '
-        'compares it with the original; exhaustive over all tables of the tier scope x 2 algorithms, then seeded '
-        'random/structured tables (duplicate rows/columns included) up to 7x7, tall tables with 11-14 objects (two-digit '
-        'object indexes in the sort key of the re-sorted Lindig lattice), and HISTORIES: the lattice is built from [top, bottom] '
-        'by add() in a seeded order, or from_context followed by remove()/del and add() of inner concepts, with label calls '
-        '(index/name getters, the diagram label function) in between; the labels of the final complete lattice are judged; '
-        'non-trivial = table neither all-true nor all-false; distinct = distinct (table, algorithm, history)')
-EXHAUSTIVE = {'quick': 'all tables n,m<=3 (682) x {Lindig, CbO}, every concept',
-              'thorough': 'all tables with n*m<=12, n,m<=4 (9418) x {Lindig, CbO}, every concept'}
+RULE = ('case = (boolean table with named objects/attributes, algorithm in {default=Lindig, CbO}[, start, program]); the REAL '
+        'lattice\'s get_concept_new_extent_i/_intent_i, the name versions, ancestors(i) of every concept, children_dict, '
+        'parents_dict and the default diagram label of every node are collected (every getter is asked twice, the sets '
+        'returned first are mutated by the caller in between); the Lean checker holdsC04 rebuilds the table from those labels '
+        'and (a) the ancestor sets, (b) reachability along the drawn children_dict edges, (c) along parents_dict, and compares it '
+        'with the original; static streams: exhaustive over all tables of the tier scope x 2 algorithms, seeded random/structured '
+        'tables up to 7x7, tall (11-14 objects) and wide (13-15 and 65-70 attributes) tables, duplicated object/attribute '
+        'names, empty/full rows/columns; HISTORIES on one lattice: start in {from_context Lindig/CbO, ConceptLattice(shuffled '
+        'concept list), [top,bottom], write_json->read_json} then a PROGRAM of look (label getters / dicts / diagram labels), '
+        'remove, del, add(fill_up_cache True/False) of the very concept object or of an equal concept built by the caller '
+        '(from_objects(is_extent=True) on permuted names/indexes or a one-shot iterator, from_dict with unsorted Inds, the '
+        'constructor, from_objects of a generating subset), re-adding removed concepts and adding concepts that are already present, optional '
+        'snapshots in between; every snapshot whose concept set is the complete one is judged by the property, a pruned one only '
+        'against the model; exhaustive histories: all tables n,m<=3 x 2 algorithms x looked-before or not x every inner concept '
+        'removed and re-added x fill_up_cache x every concept of support>=2 added again with a permuted extent; '
+        'non-trivial = table neither all-true nor all-false; distinct = distinct (table, names, algorithm, start, program)')
+EXHAUSTIVE = {'quick': 'all tables n,m<=3 (682) x {Lindig, CbO}, every concept; histories: the same tables x {Lindig, CbO} x '
+                       '{labels looked at before, not} x (every inner concept removed and re-added x fill_up_cache in {True, False}; '
+                       'every concept of support >= 2 added again with a permuted extent)',
+              'thorough': 'all tables with n*m<=12, n,m<=4 (9418) x {Lindig, CbO}, every concept; histories as in quick, and on '
+                          'the larger tables the same (every inner concept re-added x fill_up_cache, every concept of support >= 2 '
+                          'added again permuted) for one seeded choice of (algorithm, looked-before) per table'}
 EXPLANATION = ('the Lean checker Spec.holdsC04 judges the implementation\'s own labels (index and name versions) and ancestor sets: '
                'every object/attribute labels exactly one node and table[g][a] <-> node(g) <= node(a) (Fca.C04.holdsC04_iff proves the '
-               'checker true exactly in that case; model_holdsC04 that it accepts the model); the labels are pinned '
-               'uniquely, so they are also compared with the model (Fca.C04.* prove the model\'s labels have these properties '
-               'for every concept list enumerating allConcepts t)')
-ASSUMPTIONS = ['the concept list is a duplicate-free enumeration of all concepts of the table (C02; re-checked on every case)',
-               'object/attribute names pairwise distinct and free of ", " (label parsing)']
-TRUSTED = ['Python set comprehension/difference; str.join and sorted() in the label function']
+               'checker true exactly in that case; model_holdsC04 that it accepts the model); the same checker is applied with '
+               '"<=" read off the drawn edges (reachability along children_dict / parents_dict, Spec.holdsC04Edges); the labels are '
+               'pinned uniquely, so they are also compared with the model (Fca.C04.* prove the model\'s labels have these '
+               'properties for every concept list enumerating allConcepts t); after a history the expected concept set is '
+               'tracked by the harness and the state is judged like a freshly built lattice with that content')
+ASSUMPTIONS = ['the concept list is a duplicate-free enumeration of all concepts of the table (C02; re-checked on every case, '
+               'by Spec.isConceptList for width <= 12 and by the subset-free Spec.isConceptListFast beyond; both are computed '
+               'and compared whenever width <= 12)',
+               'object/attribute names free of ", " (label parsing); name labels are judged by the property only when the names '
+               'are pairwise distinct (with duplicated names the index labels are judged and the name labels are compared with the model)',
+               'a pruned lattice (some concepts removed) is not covered by the property: such states are only compared with '
+               'the model (kind correspondence)']
+TRUSTED = ['Python set comprehension/difference; str.join and sorted() in the label function',
+           'Spec.reachAll (reachability along the drawn edges) and Spec.isConceptListFast are executable checkers without a '
+           'theorem of their own; isConceptListFast is cross-checked against Spec.isConceptList on every case of width <= 12']
 CHUNK = 100
 REQUESTS_NEED_IMPL = True
 IMPL_TIME_LIMIT_S = float(os.environ.get('VERIF_IMPL_LIMIT_S', '15'))  # per case; a normal case takes milliseconds (get_chains has unbounded loops)
 _LIMIT = [IMPL_TIME_LIMIT_S]  # lowered to 3 s in a process once a case has hit the limit
 
 ALGOS = (None, 'CbO')
-OBJ = ['g%d' % i for i in range(16)]
-ATT = ['m%d' % i for i in range(16)]
+OBJ = ['g%d' % i for i in range(80)]
+ATT = ['m%d' % i for i in range(80)]
 HERE = os.path.dirname(os.path.abspath(__file__))
 CORPUS = os.path.join(os.path.dirname(os.path.dirname(HERE)), 'corpus', 'C04')
+MAXC = 40          # histories are run on lattices with at most this many concepts
+LOOKS = ('draw', 'draw', 'ext_i', 'int_i', 'ext', 'int', 'one-label', 'dicts', 'ch', 'pa')
+HOWS = ('same', 'names', 'names', 'idx', 'dict', 'ctor', 'closure', 'iter')
+STARTS = ('ctx', 'ctx', 'ctx', 'list', 'tb', 'json')
 
 
 def _corpus():
@@ -48,6 +72,43 @@ def _corpus():
             continue
 
 
+# ---------------------------------------------------------------------------------------------------------------
+# pure-Python FCA helpers of the generator and of the history bookkeeping (no fcapy involved)
+# ---------------------------------------------------------------------------------------------------------------
+def _extents(rows):
+    """all concept extents of the table: the intersections of attribute extents (and the full object set)"""
+    n, m = len(rows), len(rows[0])
+    exts = {frozenset(range(n))}
+    for a in range(m):
+        col = frozenset(g for g in range(n) if rows[g][a])
+        exts |= {e & col for e in exts}
+    return exts
+
+
+def _intent(rows, ext):
+    return [a for a in range(len(rows[0])) if all(rows[g][a] for g in ext)]
+
+
+def _closure(rows, objs_):
+    it = _intent(rows, objs_)
+    return frozenset(g for g in range(len(rows)) if all(rows[g][a] for a in it))
+
+
+def _names(c):
+    rows = c['rows']
+    n, m = len(rows), len(rows[0])
+    objs = c.get('objs') or OBJ[:n]
+    attrs = c.get('attrs') or ATT[:m]
+    if len(objs) != n:
+        objs = OBJ[:n]
+    if len(attrs) != m:
+        attrs = ATT[:m]
+    return list(objs), list(attrs)
+
+
+# ---------------------------------------------------------------------------------------------------------------
+# tables
+# ---------------------------------------------------------------------------------------------------------------
 def _tall_table(rng):
     """11-14 objects; two attribute extents of equal size that differ first in a one-digit vs. a two-digit index."""
     n, m = rng.randint(11, 14), rng.randint(2, 4)
@@ -58,6 +119,235 @@ def _tall_table(rng):
         rows[g][0] = int(g in common or g == x)
         rows[g][1] = int(g in common or g == y)
     return rows
+
+
+def _transpose(rows):
+    return [list(r) for r in zip(*rows)]
+
+
+def _extremes(rng, rows):
+    """inject shape extremes: empty / full rows and columns, duplicated rows and columns"""
+    rows = [list(r) for r in rows]
+    n, m = len(rows), len(rows[0])
+    for _ in range(rng.choice((1, 1, 2, 3))):
+        k = rng.choice(('erow', 'frow', 'ecol', 'fcol', 'drow', 'dcol'))
+        if k == 'erow':
+            rows[rng.randrange(n)] = [0] * m
+        elif k == 'frow':
+            rows[rng.randrange(n)] = [1] * m
+        elif k in ('ecol', 'fcol'):
+            a = rng.randrange(m)
+            for r in rows:
+                r[a] = int(k == 'fcol')
+        elif k == 'drow' and n > 1:
+            rows[rng.randrange(n)] = list(rows[rng.randrange(n)])
+        elif k == 'dcol' and m > 1:
+            a, b = rng.randrange(m), rng.randrange(m)
+            for r in rows:
+                r[a] = r[b]
+    return rows
+
+
+def _big_table(rng, wide):
+    """>= 13 objects (or attributes when ``wide``) and few concepts: a small core, its rows repeated / varied"""
+    k, small = rng.randint(13, 15), rng.randint(2, 4)
+    core = G.random_table(rng, 4, small, nmin=2, mmin=small)
+    rows = [list(rng.choice(core)) for _ in range(k)]
+    for _ in range(rng.randint(0, 3)):
+        rows[rng.randrange(k)][rng.randrange(small)] ^= 1
+    if rng.random() < 0.4:
+        rows = _extremes(rng, rows)
+    return _transpose(rows) if wide else rows
+
+
+def _huge_wide(rng):
+    """65-70 attributes (more than one 64-bit word of a packed row), 2-3 objects"""
+    m, n = rng.randint(65, 70), rng.randint(2, 3)
+    pat = [[int(rng.random() < 0.5) for _ in range(n)] for _ in range(rng.randint(2, 4))]
+    cols = [list(rng.choice(pat)) for _ in range(m)]
+    cols[rng.choice((0, 63, 64, m - 1)) % m] = [1] * n
+    cols[rng.choice((1, 62, 65, m - 2)) % m] = [0] * n
+    return _transpose(cols)
+
+
+def _dup_names(rng, names):
+    """a name list with repetitions (FormalContext accepts it)"""
+    names = list(names)
+    if len(names) < 2:
+        return names
+    for _ in range(rng.randint(1, max(1, len(names) // 2))):
+        names[rng.randrange(len(names))] = names[rng.randrange(len(names))]
+    if len(set(names)) == len(names):
+        names[-1] = names[0]
+    return names
+
+
+def _history_table(rng, kind=None):
+    """a table whose lattice has 3..MAXC concepts, from the mix of shapes"""
+    for _ in range(50):
+        k = kind or rng.choice(('small', 'small', 'small', 'small', 'extreme', 'extreme', 'tall', 'wide', 'tall13', 'wide13'))
+        if k == 'small':
+            rows = G.random_table(rng, 7, 7)
+        elif k == 'extreme':
+            rows = _extremes(rng, G.random_table(rng, 7, 7, nmin=2, mmin=2))
+        elif k == 'tall':
+            rows = _tall_table(rng) if rng.random() < 0.5 else G.random_table(rng, 14, 4, nmin=11)
+        elif k == 'wide':
+            rows = _transpose(G.random_table(rng, 14, 4, nmin=11))
+        else:
+            rows = _big_table(rng, k == 'wide13')
+        if 3 <= len(_extents(rows)) <= MAXC:
+            return rows
+    return [[1, 0], [0, 1]]
+
+
+# ---------------------------------------------------------------------------------------------------------------
+# programs
+# ---------------------------------------------------------------------------------------------------------------
+def _listing(rng, ext):
+    """the extent as a caller might list it: ascending, descending, rotated or shuffled"""
+    e = sorted(ext)
+    k = rng.random()
+    if len(e) < 2 or k < 0.2:
+        return e
+    if k < 0.5:
+        return e[::-1]
+    if k < 0.7:
+        return e[1:] + e[:1]
+    p = list(e)
+    rng.shuffle(p)
+    return p if p != e else e[::-1]
+
+
+def _generator_of(rng, rows, ext):
+    """a (shuffled) subset of the extent whose closure is the extent"""
+    s = sorted(ext)
+    rng.shuffle(s)
+    for g in list(s):
+        t = [x for x in s if x != g]
+        if _closure(rows, t) == frozenset(ext):
+            s = t
+    return s
+
+
+def _add_op(rng, rows, ext, how=None, fill=None):
+    how = how or rng.choice(HOWS)
+    fill = rng.choice((1, 1, 0)) if fill is None else fill
+    return ['add', _listing(rng, ext), how, int(fill), _generator_of(rng, rows, ext) if how == 'closure' else None]
+
+
+def _look_op(rng, p=1.0):
+    return [['look', rng.choice(LOOKS), rng.randrange(1 << 16)]] if rng.random() < p else []
+
+
+def _program(rng, rows, start, template=None):
+    exts = _extents(rows)
+    top = frozenset(range(len(rows)))
+    bottom = min(exts, key=len)
+    inner = sorted(sorted(e) for e in exts if e not in (top, bottom))
+    everything = sorted(sorted(e) for e in exts)
+    big = [e for e in everything if len(e) >= 2] or everything
+    present = {top, bottom} if start == 'tb' else set(exts)
+    prog = []
+    t = template or rng.choice(('readd', 'readd', 'dupadd', 'dupadd', 'multi', 'multi', 'free', 'free', 'prune'))
+    if start == 'tb':
+        t = 'build'
+    rm = lambda e: [rng.choice(('rm', 'del')), sorted(e)]
+    if t == 'readd' and inner:
+        prog += _look_op(rng, 0.6)
+        e = rng.choice(inner)
+        prog.append(rm(e))
+        prog += _look_op(rng, 0.4)
+        prog.append(_add_op(rng, rows, e, fill=rng.choice((0, 1))))
+        prog += _look_op(rng, 0.2)
+    elif t == 'dupadd':
+        prog += _look_op(rng, 0.5)
+        for _ in range(rng.randint(1, 3)):
+            e = rng.choice(big if rng.random() < 0.85 else everything)
+            prog.append(_add_op(rng, rows, e, how=rng.choice(HOWS[1:]) if rng.random() < 0.9 else 'same'))
+            prog += _look_op(rng, 0.2)
+    elif t == 'multi' and inner:
+        prog += _look_op(rng, 0.6)
+        out = rng.sample(inner, rng.randint(1, min(4, len(inner))))
+        for e in out:
+            prog.append(rm(e))
+            prog += _look_op(rng, 0.3)
+        if rng.random() < 0.3:
+            prog.append(['snap'])
+        back = list(out)
+        rng.shuffle(back)
+        for e in back:
+            if rng.random() < 0.3:
+                prog.append(_add_op(rng, rows, rng.choice(big)))
+            prog.append(_add_op(rng, rows, e))
+            prog += _look_op(rng, 0.3)
+    elif t == 'build':
+        order = list(inner)
+        rng.shuffle(order)
+        prog += _look_op(rng, 0.5)
+        for e in order:
+            prog.append(_add_op(rng, rows, e))
+            prog += _look_op(rng, 0.3)
+        second = rng.sample(everything, rng.randint(0, min(4, len(everything))))
+        for e in second:
+            prog.append(_add_op(rng, rows, e))
+    elif t == 'prune' and inner:
+        prog += _look_op(rng, 0.6)
+        for e in rng.sample(inner, rng.randint(1, min(3, len(inner)))):
+            prog.append(rm(e))
+            prog += _look_op(rng, 0.3)
+    else:   # free
+        for _ in range(rng.randint(3, 10)):
+            k = rng.random()
+            missing = sorted(sorted(e) for e in exts - present)
+            here = sorted(sorted(e) for e in present if e not in (top, bottom))
+            if k < 0.25 and here:
+                e = rng.choice(here)
+                prog.append(rm(e))
+                present.discard(frozenset(e))
+            elif k < 0.5 and missing:
+                e = rng.choice(missing)
+                prog.append(_add_op(rng, rows, e))
+                present.add(frozenset(e))
+            elif k < 0.7:
+                e = rng.choice(sorted(sorted(x) for x in present))
+                prog.append(_add_op(rng, rows, e))
+            elif k < 0.95:
+                prog += _look_op(rng)
+            else:
+                prog.append(['snap'])
+        if rng.random() < 0.8:
+            missing = sorted(sorted(e) for e in exts - present)
+            rng.shuffle(missing)
+            for e in missing:
+                prog.append(_add_op(rng, rows, e))
+    return prog
+
+
+def _exhaustive_histories(hrng, tables, full=True):
+    """every inner concept removed and re-added x fill_up_cache, every concept of support >= 2 added again with
+    a permuted extent; x algorithm x labels looked at before or not (``full``; otherwise one seeded choice of
+    (algorithm, looked) per table)"""
+    for rows in tables:
+        exts = _extents(rows)
+        if len(exts) < 2:
+            continue
+        top, bottom = frozenset(range(len(rows))), min(exts, key=len)
+        inner = sorted(sorted(e) for e in exts if e not in (top, bottom))
+        for algo in (ALGOS if full else (hrng.choice(ALGOS),)):
+            for looked in ((0, 1) if full else (hrng.choice((0, 1)),)):
+                pre = [['look', hrng.choice(('draw', 'dicts', 'ext_i', 'int')), hrng.randrange(1 << 16)]] if looked else []
+                for e in inner:
+                    for fill in (1, 0):
+                        yield dict(stream='history-exhaustive', rows=rows, algo=algo, start='ctx',
+                                   prog=pre + [[hrng.choice(('rm', 'del')), e]] + _look_op(hrng, 0.3)
+                                   + [_add_op(hrng, rows, e, fill=fill)])
+                for e in sorted(sorted(x) for x in exts if len(x) >= 2):
+                    yield dict(stream='history-exhaustive', rows=rows, algo=algo, start='ctx',
+                               prog=pre + [_add_op(hrng, rows, e, how=hrng.choice(('names', 'idx', 'dict', 'ctor')))])
+                    # the same with a listing that is certainly not ascending
+                    yield dict(stream='history-exhaustive', rows=rows, algo=algo, start='ctx',
+                               prog=pre + [['add', e[::-1], hrng.choice(('names', 'idx', 'dict', 'ctor')), hrng.choice((0, 1)), None]])
 
 
 def gen(tier, seed, boost=False):
@@ -86,6 +376,31 @@ def gen(tier, seed, boost=False):
         rows = _tall_table(rng) if rng.random() < 0.6 else G.random_table(rng, 14, 4, nmin=11)
         for algo in ALGOS:
             yield dict(stream='random-tall', rows=rows, algo=algo)
+    # shape extremes (own random source: the streams above keep their cases)
+    xrng = random.Random(seed * 1000003 + 406)
+    mult = (1 if tier == 'quick' else 8) * (3 if boost else 1)
+    for _ in range(60 * mult):      # >= 13 attributes / objects, few concepts
+        rows = _big_table(xrng, wide=xrng.random() < 0.6)
+        for algo in ALGOS:
+            yield dict(stream='shape-13plus', rows=rows, algo=algo)
+    for _ in range(25 * mult):      # > 64 attributes, and the same transposed (> 64 objects)
+        rows = _huge_wide(xrng)
+        for algo in ALGOS:
+            yield dict(stream='shape-65plus', rows=rows, algo=algo)
+        if xrng.random() < 0.3:
+            yield dict(stream='shape-65plus', rows=_transpose(rows), algo=xrng.choice(ALGOS))
+    for _ in range(120 * mult):     # empty / full rows and columns, duplicated rows and columns
+        rows = _extremes(xrng, G.random_table(xrng, 7, 7, nmin=2, mmin=2))
+        for algo in ALGOS:
+            yield dict(stream='shape-extremes', rows=rows, algo=algo)
+    for _ in range(120 * mult):     # duplicated object / attribute names
+        rows = G.random_table(xrng, 6, 6, nmin=2, mmin=2)
+        n, m = len(rows), len(rows[0])
+        k = xrng.choice(('o', 'a', 'oa'))
+        objs = _dup_names(xrng, OBJ[:n]) if 'o' in k else None
+        attrs = _dup_names(xrng, ATT[:m]) if 'a' in k else None
+        for algo in ALGOS:
+            yield dict(stream='shape-dupnames', rows=rows, algo=algo, objs=objs, attrs=attrs)
     # histories: the labels are looked at, the lattice is changed by add/remove/del, and the history ends in the
     # complete concept lattice of the table, whose labels are then judged (state left over from earlier label calls)
     hrng = random.Random(seed * 1000003 + 405)
@@ -103,6 +418,23 @@ def gen(tier, seed, boost=False):
         rows = G.random_table(hrng, 7, 7)
         for how in ('build', 'readd'):
             yield dict(stream='history-random', rows=rows, algo=hrng.choice(ALGOS), hist=[how, hrng.randrange(1 << 30)])
+    # explicit programs (remove / del / add with fill_up_cache True and False, caller-built equal concepts, looks)
+    prng = random.Random(seed * 1000003 + 407)
+    yield from _exhaustive_histories(prng, G.tables_upto(3, 3))
+    if tier == 'thorough' or boost:
+        yield from _exhaustive_histories(prng, (r for r in G.tables_upto(4, 4, cells=12) if len(r) > 3 or len(r[0]) > 3), full=False)
+    for _ in range((6000 if tier == 'quick' else 30000) * (3 if boost else 1)):
+        rows = _history_table(prng)
+        start = prng.choice(STARTS)
+        c = dict(stream='history-program', rows=rows, algo=prng.choice(ALGOS), start=start, prog=_program(prng, rows, start))
+        if start == 'list':
+            c['sseed'] = prng.randrange(1 << 16)
+        n, m = len(rows), len(rows[0])
+        if prng.random() < 0.12:
+            c['objs'] = _dup_names(prng, OBJ[:n])
+        if prng.random() < 0.12:
+            c['attrs'] = _dup_names(prng, ATT[:m])
+        yield c
 
 
 def _parse_label(label):
@@ -122,7 +454,6 @@ def _parse_label(label):
         ok = ok and k == str(len(items)) and items == sorted(items)
         out.append(items)
     return out[0], out[1], ok
-
 
 
 class NonTermination(Exception):
@@ -149,18 +480,28 @@ def impl(c):
         return _guarded(_LIMIT[0], lambda: _impl(c))
     except NonTermination as e:
         _LIMIT[0] = 3.0
-        return {'err': 'NonTermination', 'msg': str(e)}
+        return {'err': 'NonTermination', 'msg': str(e), 'complete': True}
 
 
 def _look(L, r, LineVizNx, steps):
     """some label call(s), as a user redrawing / inspecting the diagram would make"""
     kind = r.choice(('draw', 'draw', 'ext_i', 'int_i', 'ext', 'int', 'one-label'))
     steps.append('look:' + kind)
+    _do_look(L, kind, r, LineVizNx)
+
+
+def _do_look(L, kind, r, LineVizNx):
     if kind == 'draw':
         for i in range(len(L)):
             LineVizNx.concept_lattice_label_func(i, L)
     elif kind == 'one-label':
         LineVizNx.concept_lattice_label_func(r.randrange(len(L)), L)
+    elif kind == 'dicts':
+        L.children_dict, L.parents_dict
+    elif kind == 'ch':
+        L.children_dict
+    elif kind == 'pa':
+        L.parents_dict
     else:
         f = {'ext_i': L.get_concept_new_extent_i, 'int_i': L.get_concept_new_intent_i,
              'ext': L.get_concept_new_extent, 'int': L.get_concept_new_intent}[kind]
@@ -209,70 +550,243 @@ def _history(L0, hist, LineVizNx):
     return L, steps
 
 
+def _poke(s):
+    """the caller changes a set it was handed (a returned label set must be the caller's own copy)"""
+    try:
+        if isinstance(s, (set, dict, list)):
+            s.clear()
+    except Exception:
+        pass
+
+
+def _snapshot(L, objs, attrs, LineVizNx, cur, complete):
+    """everything a reader of the diagram sees, asked twice; the first answers are mutated by the caller in between"""
+    rng_ = range(len(L))
+    sset = lambda xs: sorted(ints(xs))
+    sstr = lambda xs: sorted(str(g) for g in xs)
+    getters = (('newExtI', L.get_concept_new_extent_i, sset), ('newIntI', L.get_concept_new_intent_i, sset),
+               ('newExt', L.get_concept_new_extent, sstr), ('newInt', L.get_concept_new_intent, sstr))
+    first, raw = {}, []
+    for name, f, canon in getters:
+        got = [f(i) for i in rng_]
+        first[name] = [canon(x) for x in got]
+        raw.extend(got)
+    d1, d2 = L.children_dict, L.parents_dict
+    first['ch'] = [sset(d1[i]) for i in rng_]
+    first['pa'] = [sset(d2[i]) for i in rng_]
+    for s in raw + list(d1.values()) + list(d2.values()) + [d1, d2]:
+        _poke(s)
+    out = dict(
+        cs=[[sset(x.extent_i), sset(x.intent_i)] for x in L],
+        unsorted=any(list(x.extent_i) != sorted(x.extent_i) for x in L),
+        names_ok=all([objs[g] for g in x.extent_i] == list(x.extent) and [attrs[a] for a in x.intent_i] == list(x.intent)
+                     for x in L),
+        anc=[sset(L.ancestors(i)) for i in rng_],
+        labels=[LineVizNx.concept_lattice_label_func(i, L, True, 1000, True, 1000) for i in rng_],
+        top=int(L.top), bottom=int(L.bottom),
+        exp=sorted(sorted(e) for e in cur), complete=bool(complete),
+    )
+    for name, f, canon in getters:
+        out[name] = [canon(f(i)) for i in rng_]
+    d1, d2 = L.children_dict, L.parents_dict
+    out['ch'] = [sset(d1[i]) for i in rng_]
+    out['pa'] = [sset(d2[i]) for i in rng_]
+    out['stable'] = all(first[k] == out[k] for k in first)
+    return out
+
+
+def _make_concept(K, rows, objs, attrs, op, pool, dup_obj):
+    """the concept with the extent listed in ``op``, as a caller would build it"""
+    from fcapy.lattice.formal_concept import FormalConcept
+    _, listing, how, fill, gen_ = (op + [None])[:5]
+    key = frozenset(listing)
+    if how == 'same' and key in pool:
+        return pool[key]
+    if how == 'closure' and gen_ is not None:
+        return FormalConcept.from_objects(list(gen_) if dup_obj else [objs[g] for g in gen_], K)
+    if how == 'iter':       # a one-shot iterable where an Iterable is accepted
+        return FormalConcept.from_objects(iter(list(listing)) if dup_obj else (objs[g] for g in listing), K, is_extent=True)
+    if how in ('names', 'same', 'closure') and not dup_obj:
+        return FormalConcept.from_objects([objs[g] for g in listing], K, is_extent=True)
+    if how in ('idx', 'names', 'same', 'closure'):
+        return FormalConcept.from_objects(list(listing), K, is_extent=True)
+    it = _intent(rows, listing)
+    if how == 'dict':
+        return FormalConcept.from_dict({'Ext': {'Inds': list(listing), 'Names': [objs[g] for g in listing], 'Count': len(listing)},
+                                        'Int': {'Inds': list(it), 'Names': [attrs[a] for a in it], 'Count': len(it)},
+                                        'Supp': len(listing), 'Context_Hash': K.hash_fixed(), 'Monotone': False})
+    return FormalConcept(tuple(listing), tuple(objs[g] for g in listing), tuple(it), tuple(attrs[a] for a in it),
+                         context_hash=K.hash_fixed())
+
+
+def _run_program(c, K, L0, objs, attrs, LineVizNx):
+    from fcapy.lattice import ConceptLattice
+    rows = c['rows']
+    all_exts = _extents(rows)
+    top, bottom = frozenset(range(len(rows))), min(all_exts, key=len)
+    pool = {frozenset(ints(x.extent_i)): x for x in L0}
+    dup_obj = len(set(objs)) < len(objs)
+    start = c.get('start') or 'ctx'
+    steps, snaps = [], []
+    cur = set(pool)
+    L = L0
+    if start == 'list':
+        xs = list(L0)
+        random.Random(c.get('sseed', 0)).shuffle(xs)
+        L = ConceptLattice(xs)
+    elif start == 'tb' and len(L0) >= 2:
+        L = ConceptLattice([L0[L0.top], L0[L0.bottom]])
+        cur = {top, bottom}
+    elif start == 'json' and len(L0) >= 3 and not dup_obj and len(set(attrs)) == len(attrs):
+        L = ConceptLattice.read_json(json_data=L0.write_json(list(objs), list(attrs)))
+    else:
+        start = 'ctx'
+    steps.append('start:' + start)
+    for op in c.get('prog') or []:
+        k = op[0]
+        if k == 'look':
+            steps.append('look:' + op[1])
+            _do_look(L, op[1], random.Random(op[2]), LineVizNx)
+        elif k in ('rm', 'del'):
+            e = frozenset(op[1])
+            i = next((i for i, x in enumerate(L) if frozenset(ints(x.extent_i)) == e), None)
+            if e not in cur or e in (top, bottom) or i is None:
+                steps.append('skip')
+                continue
+            if k == 'del':
+                del L[i]
+            else:
+                L.remove(L[i])
+            cur.discard(e)
+            steps.append(k)
+        elif k == 'add':
+            e = frozenset(op[1])
+            if e not in all_exts or (op[2] == 'closure' and op[4] is not None and _closure(rows, op[4]) != e):
+                steps.append('skip')       # not a concept of this table (can only happen in a shrunk case)
+                continue
+            x = _make_concept(K, rows, objs, attrs, op, pool, dup_obj)
+            L.add(x, fill_up_cache=bool(op[3]))
+            steps.append(('add-present:' if e in cur else 'add:') + op[2] + ('' if op[3] else ':nofill')
+                         + (':unsorted' if list(x.extent_i) != sorted(x.extent_i) else ''))
+            cur.add(e)
+        elif k == 'snap':
+            steps.append('snap')
+            snaps.append(_snapshot(L, objs, attrs, LineVizNx, cur, cur == all_exts))
+    snaps.append(_snapshot(L, objs, attrs, LineVizNx, cur, cur == all_exts))
+    return snaps, steps
+
+
+def _final_complete(c):
+    """does the history of the case end in the complete concept set?  (decides how an exception is classified)"""
+    if not c.get('prog'):
+        return True
+    rows = c['rows']
+    all_exts = _extents(rows)
+    top, bottom = frozenset(range(len(rows))), min(all_exts, key=len)
+    cur = {top, bottom} if c.get('start') == 'tb' and len(all_exts) >= 2 else set(all_exts)
+    for op in c['prog']:
+        if op[0] in ('rm', 'del') and frozenset(op[1]) not in (top, bottom):
+            cur.discard(frozenset(op[1]))
+        elif op[0] == 'add' and frozenset(op[1]) in all_exts:
+            cur.add(frozenset(op[1]))
+    return cur == all_exts
+
+
 def _impl(c):
     from fcapy.lattice import ConceptLattice
     from fcapy.visualizer.line_visualizers import LineVizNx
     rows = c['rows']
-    n, m = len(rows), len(rows[0])
-    K = make_context(rows, 'BinTableBitarray', OBJ[:n], ATT[:m])
+    objs, attrs = _names(c)
+    K = make_context(rows, 'BinTableBitarray', objs, attrs)
     try:
         L = ConceptLattice.from_context(K, algo=c['algo'])
         hist = c.get('hist')
         steps = []
-        if hist and len(L) >= 3:
-            L, steps = _history(L, hist, LineVizNx)
-        rng_ = range(len(L))
-        out = dict(
-            cs=[[ints(x.extent_i), ints(x.intent_i)] for x in L],
-            names_ok=all([OBJ[g] for g in x.extent_i] == list(x.extent) and [ATT[a] for a in x.intent_i] == list(x.intent)
-                         for x in L),
-            newExtI=[sorted(ints(L.get_concept_new_extent_i(i))) for i in rng_],
-            newIntI=[sorted(ints(L.get_concept_new_intent_i(i))) for i in rng_],
-            newExt=[sorted(str(g) for g in L.get_concept_new_extent(i)) for i in rng_],
-            newInt=[sorted(str(a) for a in L.get_concept_new_intent(i)) for i in rng_],
-            anc=[sorted(ints(L.ancestors(i))) for i in rng_],
-            labels=[LineVizNx.concept_lattice_label_func(i, L, True, 1000, True, 1000) for i in rng_],
-            steps=steps,
-        )
-        return out
+        if c.get('prog') is not None:
+            snaps, steps = _run_program(c, K, L, objs, attrs, LineVizNx)
+        else:
+            if hist and len(L) >= 3:
+                L, steps = _history(L, hist, LineVizNx)
+            snaps = [_snapshot(L, objs, attrs, LineVizNx, _extents(rows), True)]
+        return dict(snaps=snaps, steps=steps)
     except Exception as e:
-        return {'err': exc_name(e), 'msg': str(e)[:200]}
+        return {'err': exc_name(e), 'msg': str(e)[:200], 'complete': _final_complete(c)}
 
 
 def requests(c, io):
     if 'err' in io:
         return []
     rows = c['rows']
-    n, m = len(rows), len(rows[0])
-    return [dict(op='C04.labels', rows=rows, w=m, objs=OBJ[:n], attrs=ATT[:m], cs=io['cs'],
-                 newExtI=io['newExtI'], newIntI=io['newIntI'], newExt=io['newExt'], newInt=io['newInt'], anc=io['anc'])]
+    objs, attrs = _names(c)
+    return [dict(op='C04.state', rows=rows, w=len(rows[0]), objs=objs, attrs=attrs, cs=s['cs'],
+                 newExtI=s['newExtI'], newIntI=s['newIntI'], newExt=s['newExt'], newInt=s['newInt'], anc=s['anc'],
+                 ch=s['ch'], pa=s['pa']) for s in io['snaps']]
+
+
+def _judge_snap(c, s, r, where):
+    objs, attrs = _names(c)
+    dup = len(set(objs)) < len(objs) or len(set(attrs)) < len(attrs)
+    complete = s['complete']
+    # a pruned lattice is outside the property: every disagreement there is a correspondence failure
+    P = lambda what, detail: dict(ok=False, kind='property' if complete else 'correspondence', what=what, detail=where + detail)
+    C = lambda what, detail: dict(ok=False, kind='correspondence', what=what, detail=where + detail)
+    if r['hypSlow'] is not None and r['hypSlow'] != r['hypFast']:
+        return dict(ok=False, kind='harness', detail=f'isConceptList {r["hypSlow"]} != isConceptListFast {r["hypFast"]} on {s["cs"]}')
+    if complete:
+        if not r['hyp']:
+            return P('concepts', f'the lattice does not list every concept of the table exactly once: {s["cs"]}')
+        if not r['modelHolds'] or not r['modelEdgesHold']:
+            return dict(ok=False, kind='harness', detail='holdsC04 rejects the MODEL\'s labels / edges (contradicts the theorems)')
+    else:
+        if sorted(x[0] for x in s['cs']) != s['exp'] or not r['sub']:
+            return C('content', f'after the history the lattice should consist of the concepts with extents {s["exp"]}, it lists {s["cs"]}')
+    if not s['stable']:
+        return P('unstable', 'asking again after the caller changed the returned sets gives other labels / edges')
+    if complete:
+        if not r['holdsI']:
+            return P('index-labels', f'table not reconstructed from new_extent_i {s["newExtI"]} / new_intent_i {s["newIntI"]} / '
+                                     f'ancestors {s["anc"]}; concepts {s["cs"]}')
+        if not dup and not r['holdsN']:
+            return P('name-labels', f'table not reconstructed from the name labels {s["newExt"]} / {s["newInt"]}')
+    if not s['names_ok']:
+        return P('names', 'a concept\'s extent/intent names are not the names of its indexes')
+    if not r['edgesAgree']:
+        return P('diagram-edges', f'children_dict {s["ch"]} is not the transpose of parents_dict {s["pa"]}')
+    if complete:
+        if not r['holdsCh']:
+            return P('diagram-children', f'table not reconstructed from the labels with "below" read off the drawn edges '
+                                         f'children_dict {s["ch"]}; new_extent_i {s["newExtI"]} / new_intent_i {s["newIntI"]}; concepts {s["cs"]}')
+        if not r['holdsPa']:
+            return P('diagram-parents', f'table not reconstructed from the labels with "below" read off parents_dict {s["pa"]}')
+    # the diagram labels show exactly the reduced labels
+    for i, lab in enumerate(s['labels']):
+        p = _parse_label(lab)
+        if p is None or not p[2] or p[0] != s['newInt'][i] or p[1] != s['newExt'][i]:
+            return P('diagram-label', f'node {i} label {lab!r} does not show new intent {s["newInt"][i]} / new extent {s["newExt"][i]}')
+    # labels are pinned uniquely: also compare with the model (name labels only when the names are distinct)
+    for f in ('newExtI', 'newIntI', 'anc') + (() if dup else ('newExt', 'newInt')):
+        if s[f] != r[f]:
+            return P('labels-differ', f'{f}: implementation {s[f]} != proved value {r[f]}')
+    for f in ('ch', 'pa') + (('newExt', 'newInt') if dup else ()):
+        mv = [sorted(set(x)) for x in r[f]]      # the model keeps a repeated name repeated, a Python set does not
+        if s[f] != mv:
+            return C('model-differs', f'{f}: implementation {s[f]} != model {mv}')
+    n = len(c['rows'])
+    if s['cs'][s['top']][0] != list(range(n)) or any(len(x[0]) < len(s['cs'][s['bottom']][0]) for x in s['cs']):
+        return C('top-bottom', f'top={s["top"]} / bottom={s["bottom"]} are not the largest / smallest concept of {s["cs"]}')
+    return dict(ok=True)
 
 
 def judge(c, io, rep):
     if 'err' in io:
-        return dict(ok=False, kind='property', what='raise', detail=f'raised {io["err"]}: {io.get("msg")}')
-    r = rep[0]
-    P = lambda what, detail: dict(ok=False, kind='property', what=what, detail=detail)
-    if not r['hyp']:
-        return P('concepts', f'the constructed lattice does not list every concept of the table exactly once: {io["cs"]}')
-    if not r['modelHolds']:
-        return dict(ok=False, kind='harness', detail='holdsC04 rejects the MODEL\'s labels (contradicts the theorems)')
-    if not r['holdsI']:
-        return P('index-labels', f'table not reconstructed from new_extent_i {io["newExtI"]} / new_intent_i {io["newIntI"]} / '
-                                 f'ancestors {io["anc"]}; concepts {io["cs"]}')
-    if not r['holdsN']:
-        return P('name-labels', f'table not reconstructed from the name labels {io["newExt"]} / {io["newInt"]}')
-    if not io['names_ok']:
-        return P('names', 'a concept\'s extent/intent names are not the names of its indexes')
-    # the diagram labels show exactly the reduced labels
-    for i, lab in enumerate(io['labels']):
-        p = _parse_label(lab)
-        if p is None or not p[2] or p[0] != io['newInt'][i] or p[1] != io['newExt'][i]:
-            return P('diagram-label', f'node {i} label {lab!r} does not show new intent {io["newInt"][i]} / new extent {io["newExt"][i]}')
-    # labels are pinned uniquely: also compare with the model
-    for f in ('newExtI', 'newIntI', 'newExt', 'newInt', 'anc'):
-        if io[f] != r[f]:
-            return P('labels-differ', f'{f}: implementation {io[f]} != proved value {r[f]}')
+        return dict(ok=False, kind='property' if io.get('complete', True) else 'correspondence', what='raise',
+                    detail=f'raised {io["err"]}: {io.get("msg")}')
+    k = len(io['snaps'])
+    for j, (s, r) in enumerate(zip(io['snaps'], rep)):
+        where = '' if k == 1 else (f'[snapshot {j + 1} of {k}] ' if j + 1 < k else '[final state] ')
+        v = _judge_snap(c, s, r, where)
+        if not v['ok']:
+            return v
     return dict(ok=True)
 
 
@@ -281,7 +795,7 @@ def nontrivial(c):
 
 
 def key(c):
-    return [c['rows'], c['algo'], c.get('hist')]
+    return [c['rows'], c['algo'], c.get('hist'), c.get('start'), c.get('sseed'), c.get('prog'), c.get('objs'), c.get('attrs')]
 
 
 def _dups(rows):
@@ -293,29 +807,125 @@ def branch(c, io, rep):
     algo = c['algo'] or 'Lindig'
     if 'err' in io:
         return [c['stream'], f'{algo}:err']
-    dr, dc = _dups(c['rows'])
+    rows = c['rows']
+    n, m = len(rows), len(rows[0])
+    dr, dc = _dups(rows)
     out = [c['stream'], algo]
+    steps = io.get('steps', [])
     if c.get('hist'):
-        out.append('history:' + c['hist'][0] + (':with-look-between' if any(a.startswith('look') and 0 < k < len(io.get('steps', [])) - 1 for k, a in enumerate(io.get('steps', []))) else ''))
-        out.append('history-steps=%d' % min(len(io.get('steps', [])), 8))
-    if len(c['rows']) >= 11:
+        out.append('history:' + c['hist'][0] + (':with-look-between' if any(a.startswith('look') and 0 < k < len(steps) - 1 for k, a in enumerate(steps)) else ''))
+        out.append('history-steps=%d' % min(len(steps), 8))
+    if c.get('prog') is not None:
+        out.append('program:' + steps[0])
+        out.append('program-steps=%d' % min(len(steps) - 1, 12))
+        for a in sorted(set(a for a in steps[1:] if not a.startswith('look'))):
+            out.append('op:' + a)
+        looked = False
+        for a in steps[1:]:
+            if a.startswith('look') or a == 'snap':
+                looked = True
+            elif a.startswith('add') and a.endswith(':nofill') or ':nofill:' in a:
+                out.append(f'{algo}:nofill-add-after-look' if looked else f'{algo}:nofill-add-unlooked')
+                break
+        out.append('final:complete' if io['snaps'][-1]['complete'] else 'final:pruned')
+        if any(s['unsorted'] for s in io['snaps']):
+            out.append('lattice-holds-concept-with-unsorted-extent')
+        if len(io['snaps']) > 1:
+            out.append('snapshots>1')
+    s = io['snaps'][-1]
+    if c.get('objs') and len(set(c['objs'])) < n:
+        out.append('duplicate-object-names')
+    if c.get('attrs') and len(set(c['attrs'])) < m:
+        out.append('duplicate-attribute-names')
+    if n >= 11:
         out.append('two-digit-object-indexes')
+    if m >= 11:
+        out.append('two-digit-attribute-indexes')
+    if n > 64 or m > 64:
+        out.append('more-than-64-objects-or-attributes')
+    if any(not any(r) for r in rows):
+        out.append('empty-row')
+    if any(all(r) for r in rows):
+        out.append('full-row')
+    if any(not any(col) for col in zip(*rows)):
+        out.append('empty-column')
+    if any(all(col) for col in zip(*rows)):
+        out.append('full-column')
     if dr:
         out.append('duplicate-rows(shared node)')
     if dc:
         out.append('duplicate-cols(shared node)')
-    if any(len(x) > 1 for x in io['newExtI']):
+    if any(len(x) > 1 for x in s['newExtI']):
         out.append('node-with-several-objects')
-    if any(len(x) > 1 for x in io['newIntI']):
+    if any(len(x) > 1 for x in s['newIntI']):
         out.append('node-with-several-attrs')
-    if any(len(x) > 0 and len(y) > 0 for x, y in zip(io['newExtI'], io['newIntI'])):
+    if any(len(x) > 0 and len(y) > 0 for x, y in zip(s['newExtI'], s['newIntI'])):
         out.append('node-with-object-and-attr')
     return out
 
 
 def signature(c, io, rep, v):
-    return f"C04:{c['algo'] or 'Lindig'}:{'history:' if c.get('hist') else ''}{v.get('kind')}:{v.get('what', '?')}"
+    h = 'history:' if (c.get('hist') or c.get('prog') is not None) else ''
+    return f"C04:{c['algo'] or 'Lindig'}:{h}{v.get('kind')}:{v.get('what', '?')}"
+
+
+def _remap_prog(prog, i):
+    """object ``i`` is taken out of the table: the listings follow (ops whose extent is no extent of the smaller
+    table are skipped by the implementation side)"""
+    out = []
+    for op in prog:
+        op = list(op)
+        if op[0] in ('rm', 'del', 'add'):
+            op[1] = [g - (g > i) for g in op[1] if g != i]
+            if op[0] == 'add' and len(op) > 4 and op[4] is not None:
+                op[4] = [g - (g > i) for g in op[4] if g != i]
+        out.append(op)
+    return out
 
 
 def shrink(c):
-    yield from G.shrink_table_case(c)
+    prog = c.get('prog')
+    if prog is None:
+        yield from G.shrink_table_case(c)
+        return
+    # drop operations, then simplify them, then the start / names, then the table
+    for i in range(len(prog)):
+        yield dict(c, prog=prog[:i] + prog[i + 1:])
+    for i, op in enumerate(prog):
+        if op[0] == 'add':
+            for simpler in (['add', sorted(op[1]), op[2], op[3], op[4] if len(op) > 4 else None],
+                            ['add', op[1], 'names', op[3], None], ['add', op[1], 'same', op[3], None],
+                            ['add', op[1], op[2], 1, op[4] if len(op) > 4 else None]):
+                if simpler != list(op):
+                    yield dict(c, prog=prog[:i] + [simpler] + prog[i + 1:])
+        elif op[0] == 'look' and op[1] != 'draw':
+            yield dict(c, prog=prog[:i] + [['look', 'draw', 0]] + prog[i + 1:])
+        elif op[0] == 'del':
+            yield dict(c, prog=prog[:i] + [['rm', op[1]]] + prog[i + 1:])
+    if (c.get('start') or 'ctx') != 'ctx':
+        yield dict(c, start='ctx')
+    if c.get('objs'):
+        yield dict(c, objs=None)
+    if c.get('attrs'):
+        yield dict(c, attrs=None)
+    rows = c['rows']
+    n, m = len(rows), len(rows[0])
+    if n > 1:
+        for i in range(n):
+            d = dict(c, rows=rows[:i] + rows[i + 1:], prog=_remap_prog(prog, i))
+            if c.get('objs'):
+                d['objs'] = c['objs'][:i] + c['objs'][i + 1:]
+            yield d
+    if m > 1:
+        for j in range(m):
+            d = dict(c, rows=[r[:j] + r[j + 1:] for r in rows])
+            if c.get('attrs'):
+                d['attrs'] = c['attrs'][:j] + c['attrs'][j + 1:]
+            yield d
+    for i in range(n):
+        for j in range(m):
+            if rows[i][j]:
+                d = dict(c)
+                d['rows'] = [list(r) for r in rows]
+                d['rows'][i][j] = 0
+                yield d
